@@ -257,6 +257,16 @@ def shapes(tier, seed):
         # assembling `nop` at the origin needs one byte inside GLOBAL
         S.append(ConfigShape(f'global-vs-origin-{bits}bit', config=c,
                              accept=f'And(gs <= ge, ge <= {top}, gs <= org, org <= ge)'))
+    # a predefined zone against a redefined GLOBAL, wherever GLOBAL stands in the list of zones
+    for pos, nm in ((0, 'global-first'), (1, 'global-last'), (1, 'global-between')):
+        c = good_isa()
+        c['general']['origin'] = 0x20
+        mz = [{'name': 'ROM', 'start': Sym('zs', 0, 0x90), 'end': Sym('ze', 0, 0x90)}]
+        if nm == 'global-between':
+            mz.append({'name': 'RAM', 'start': 0x30, 'end': 0x3f})
+        mz.insert(pos, {'name': 'GLOBAL', 'start': Sym('gs', 0, 0x20), 'end': Sym('ge', 0x40, 0x90)})
+        c['predefined']['memory_zones'] = mz
+        S.append(ConfigShape(f'zone-vs-redefined-global:{nm}', config=c, accept='And(zs <= ze, gs <= zs, ze <= ge)'))
     # operand count against the operand list: the count is symbolic, the list length enumerated (incl. the empty list)
     for where in ('instruction', 'macro', 'variant'):
         for k, lst in enumerate(([], ['regs'], ['regs', 'imm'], ['regs', 'imm', 'bit'])):
